@@ -30,6 +30,11 @@ def counter_events(p, field, base=SELF):
 def delta_of(e, field):
     prev = ("f", SELF, field, 0)
     v = strip_epochs(e.value)
+    # a total pinned at a limit of its storage - max(total - x, 0), min(total + x, LIMIT) - moves by the same amount until it gets there
+    if v[0] == "call" and v[1] in (("g", "max"), ("g", "min")) and len(v[2]) == 2:
+        inner = [x for x in v[2] if x[0] != "c"]
+        if len(inner) == 1 and any(n == prev for n in walk(inner[0])):
+            v = inner[0]
     if v[0] == "nary" and v[1] == "+" and prev in v[2]:
         rest = [x for x in v[2] if x != prev]
         return rest[0] if len(rest) == 1 else ("nary", "+", tuple(rest))
@@ -248,7 +253,14 @@ def check(prog, rep, tier):
             ok = False
             break
         d = delta_of(ev[0], "_els_added")
-        amts = {canon(strip_epochs(e.value)[3]) for e in st if strip_epochs(e.value)[0] == "bin" and strip_epochs(e.value)[1] == "-"}
+        def amount(e):
+            v_ = strip_epochs(e.value)
+            a_ = v_[3]
+            # cell - min(amount, cell): the per-cell clamp of the same amount
+            if a_[0] == "call" and a_[1] == ("g", "min") and len(a_[2]) == 2 and v_[2] in a_[2]:
+                a_ = [x for x in a_[2] if x != v_[2]][0]
+            return canon(a_)
+        amts = {amount(e) for e in st if strip_epochs(e.value)[0] == "bin" and strip_epochs(e.value)[1] == "-"}
         if st and (d[0] != "un" or amts != {canon(d[2])}):
             rep.bad("C14.counting-bloom", f"{ctx}.remove_alt", f"total delta {nshow(d)} vs cell delta {sorted(nshow(a) for a in amts)}",
                     "the total is decremented by a different amount than the cells", ev[0].where())
